@@ -120,6 +120,7 @@ fn ends_with_open_delimiter(t: &[u8], c: &DsvConfig) -> bool {
 macro_rules! rows_fields {
     ($name:ident, $n:expr, $finding:expr) => {
         #[kani::proof]
+        #[kani::stub(alloc::vec::Vec::push, crate::stubs::push_no_grow)]
         #[kani::unwind(9)]
         #[kani::stub(succinctly::util::simd::x86::has_fast_bmi2, no)]
         fn $name() {
@@ -194,6 +195,7 @@ rows_fields!(c21_trailing_delimiter_len4, 4, true);
 macro_rules! append_nl {
     ($name:ident, $n:expr, $m:expr, $finding:expr) => {
         #[kani::proof]
+        #[kani::stub(alloc::vec::Vec::push, crate::stubs::push_no_grow)]
         #[kani::unwind(9)]
         #[kani::stub(succinctly::util::simd::x86::has_fast_bmi2, no)]
         fn $name() {
@@ -262,6 +264,7 @@ append_nl!(c21_append_separator_len5, 5, 6, false);
 append_nl!(c21_append_separator_trailing_delimiter_len3, 3, 4, true);
 
 #[kani::proof]
+#[kani::stub(alloc::vec::Vec::push, crate::stubs::push_no_grow)]
 #[kani::unwind(9)]
 #[kani::stub(succinctly::util::simd::x86::has_fast_bmi2, no)]
 fn c21_witness_must_fail() {
